@@ -168,3 +168,26 @@ func H_C11_Container() {
 	})
 	_ = replaced
 }
+
+// H_C11_ClearedThenStale: an awaiter is parked on promise p1; the container is cleared
+// (SetPromise(nil)); once the awaiter has had every chance to notice (quiescence), the stale
+// p1 is resolved by somebody who still holds it and then the container gets its real result.
+// The awaiter follows the replacement: it returns the container's result, not stale p1's.
+func H_C11_ClearedThenStale() {
+	pc := promise.NewPromiseContainer[int]()
+	p1 := promise.NewPromise[int]()
+	pc.SetPromise(p1)
+	vrt.Go("awaiter", func() {
+		v, err := pc.Await(context.Background())
+		vrt.Assert(err == nil, "container-await-error")
+		vrt.Assert(v == 9, "container-awaiter-returned-result-of-replaced-promise")
+		vrt.Cover("awaiter-returned")
+	})
+	vrt.AtQuiescence(func() {
+		pc.SetPromise(nil)
+		vrt.AtQuiescence(func() {
+			p1.SetResult(5, nil)
+			pc.SetResult(9, nil)
+		})
+	})
+}
